@@ -406,6 +406,11 @@ def d2(ctx, rep):
     for s in walk_no_nested(gcu.node):
         if isinstance(s, ast.Assign) and isinstance(s.value, ast.IfExp):
             t, a, b = s.value.test, s.value.body, s.value.orelse
+            while isinstance(t, ast.UnaryOp) and isinstance(t.op, ast.Not):
+                t, a, b = t.operand, b, a            # `x if not c else y` is `y if c else x`
+            if isinstance(t, ast.Compare) and len(t.ops) == 1 and isinstance(t.ops[0], ast.NotEq):
+                t = ast.copy_location(ast.Compare(left=t.left, ops=[ast.Eq()], comparators=t.comparators), t)
+                a, b = b, a
             par = t.left.value.id if isinstance(t, ast.Compare) and isinstance(t.left, ast.Attribute) and isinstance(t.left.value, ast.Name) else None
             if par not in node_of_parent:
                 continue
